@@ -686,10 +686,12 @@ def wrapper_worker(part, job):
             from chmpy.crystal import Crystal
 
             c = Crystal.load(TEST_FILES + arg)
+            defaults = which.endswith(":defaults")      # the call a user types first: no arguments at all (separation 0.2, radius 12)
+            which = which.split(":")[0]
             if which == "crystal-hirshfeld":
-                meshes = c.hirshfeld_surfaces(separation=0.5, radius=8.0)
+                meshes = c.hirshfeld_surfaces() if defaults else c.hirshfeld_surfaces(separation=0.5, radius=8.0)
             else:
-                meshes = c.promolecule_density_isosurfaces(separation=0.5)
+                meshes = c.promolecule_density_isosurfaces() if defaults else c.promolecule_density_isosurfaces(separation=0.5)
             mols = c.symmetry_unique_molecules()
             inside = [np.asarray(mm.positions) for mm in mols]
             outside = []
@@ -783,6 +785,9 @@ def run(ctx):
     for f in ("acetic_acid.cif", "iceII.cif"):
         jobs.append(("wrap", ("crystal-hirshfeld", f)))
         jobs.append(("wrap", ("crystal-promolecule", f)))
+    for f in (("acetic_acid.cif",) if not ctx.thorough else ("acetic_acid.cif", "iceII.cif", "r3c_example.cif")):
+        jobs.append(("wrap", ("crystal-hirshfeld:defaults", f)))
+        jobs.append(("wrap", ("crystal-promolecule:defaults", f)))
     order = {"surf": 0, "wrap": 1, "smooth": 2, "block": 3}
     jobs.sort(key=lambda j: order[j[0]])
     ctx.pmap(worker, jobs)
